@@ -62,7 +62,9 @@ def run_case(case, eng, res):
         rows = [rows[case["row"] % len(rows)]]
     sched_tools = loader.load("schedule.tools")
     sched = loader.load("schedule")
-    summarize = kind in ("parseK", "roundtrip")
+    # duration and next-run text are decided for every input by C14 and C13: here they are argument-recording summaries,
+    # so that C10 is about which record fields reach them; the day decoder stays inlined where the mask is concrete
+    summarize = True
     saved = {}
     if summarize:
         names = ("bit_summary_to_days", "pretty_next_run", "calc_duration") if kind == "parseK" else ("pretty_next_run", "calc_duration")
@@ -218,7 +220,9 @@ def member_matches(s, e, kind, sched):
             bit = b_not(i_eq(mask & (1 << (k + 1)), 0)) if not isinstance(mask, int) else bool(mask & (1 << (k + 1)))
             conds.append(b_iff(has, bit))
         dur = s.duration
-        if isinstance(dur, Opaque):
+        if isinstance(dur, Summary):
+            conds.append(b_and(sym_eq(dur.args[0], e["start"]), sym_eq(dur.args[1], e["end"])))
+        elif isinstance(dur, Opaque):
             conds.append(i_eq(dur.args[0], e["dur"]))
         else:
             conds.append(False)
